@@ -15,7 +15,7 @@ META = {
             "exe(...,true) never increases |p(x)| beyond evaluation noise. Held on the cases executed; no claim beyond them.",
     "note": "Trusted: the construction of the cubic from its roots and long-double Horner evaluation; g++ and the sanitizer "
             "runtimes. 'Accuracy achievable' is read as the first-order perturbation bound of the root under relative "
-            "coefficient perturbations of size eps, at the scale S of the largest root (K=400).",
+            "coefficient perturbations of size eps, at the scale S of the largest root (K=1000).",
 }
 
 STRATA = ["three-real-exact", "three-real-rounded", "three-real-spread", "one-real-exact", "one-real-rounded",
@@ -33,7 +33,7 @@ def run(ctx):
                        "expanded from its roots in long double and rounded to the scalar type; distinct = distinct hash of the 4 "
                        "rounded coefficients per (API, stratum); non-trivial = every case (a3 != 0, at least one non-zero root "
                        "except by chance)")
-    n = ctx.n(300000, 12000000)
+    n = ctx.n(300000, 6000000)
     req = []
     for st in STRATA:
         mn = 50 if st != "one-real-small-p" else 20
@@ -41,7 +41,11 @@ def run(ctx):
             req.append((api, st, mn))
     ctx.run_events(b["asan"], n, require=req)
     ctx.assumptions += [
-        "coefficients within about 1e±30 (roots 1e±6, leading coefficient 1e±8): the extreme-scale stratum of DESIGN §3 is not sampled",
+        "coefficients within about 1e±30 (root scale 1e±6 for double/long double, 1e±4 for float, leading coefficient 1e±8): "
+        "the extreme-scale stratum of DESIGN §3 is not sampled (the closed form works with S^6; for float, roots below ~1e-6 make "
+        "the discriminant smaller than the absolute threshold 100*FLT_MIN and are treated as a double root)",
+        "completeness ('3 together with the three roots') is judged only for roots separated by >= 0.05*S; elsewhere each value "
+        "presented as a root must be one, but the refinement may move two values onto the same root",
         "when 1 is returned only the real root is 'presented as a root'; x2,x3 (real parts of the pair) are not judged",
         "for double/triple/nearly-double roots either count (1 or 3) is accepted",
     ]
